@@ -174,7 +174,60 @@ def grid_case(job) -> list:
     return viols
 
 
+def entry_case(job) -> list:
+    """A gateway with a persistence file enters its context: while no version has been *reported* the rules
+    in force are 1.4, whatever the file says about the gateway node; reports afterwards behave as always."""
+    from aiomysensors.gateway import Config
+    from aiomysensors.model.node import Child, Node
+
+    from .. import pers
+
+    stored, reports = job
+    viols = []
+
+    def bad(k, what):
+        viols.append((f"C05|entry-{k}", f"persistence file with gateway node version {stored!r}, then reports {reports}: {what}", {"entry": [stored, reports]}))
+
+    nodes = {1: Node(1, 17, "2.0", children={3: Child(3, 3)})}
+    if stored is not None:
+        nodes[0] = Node(0, 18, stored)
+    kind, val, vfs = pers.save_nodes(nodes)
+    assert kind == "ok", val
+    s = Session(None, Config(persistence_file=pers.PATH))
+    gw = s.gateway
+    kind, val = pers.run(gw.__aenter__, vfs)
+    if kind != "ok":
+        bad("enter-failed", f"entering the context gave {kind} {val!r}")
+        return viols
+    try:
+        eff = "1.4"
+        steps = [None] + list(reports)
+        for r in steps:
+            if r is not None:
+                out = s.line(f"0;255;3;0;2;{r}")
+                sp = R.spec_protocol(r)
+                if sp is not None and out.kind == "yield":
+                    eff = sp
+                elif sp is not None:
+                    bad("report-rejected", f"report {r!r} gave {out.describe()}")
+            invariant(gw, lambda k, w: bad(k, f"after {'entry' if r is None else 'report ' + repr(r)}: {w}"))
+            active = getattr(gw.protocol, "VERSION", None)
+            if active != eff:
+                bad("wrong-rules", f"after {'entry' if r is None else 'report ' + repr(r)} the active rules are {active}, expected {eff}")
+            for t in (15, 22, 29):
+                out = s.line(f"1;255;3;0;{t};0")
+                exists = R.type_exists(eff, 3, t)
+                unsupported = out.kind == "raise" and isinstance(out.exc, UnsupportedMessageError)
+                if exists == unsupported:
+                    bad(f"type-gate|3/{t}", f"after {'entry' if r is None else 'report ' + repr(r)} type {t} ({'exists' if exists else 'does not exist'} in {eff}) gave {out.describe()}")
+    finally:
+        pers.run(lambda: gw.__aexit__(None, None, None), vfs)
+    return viols
+
+
 def run(ctx: core.Ctx) -> core.Report:
+    ejobs = [(st, rp) for st in (None, "1.4", "1.5.0", "2.0.0", "2.2.0", "2.3.1", "junk", "") for rp in ([], ["2.1.1"], ["junk"], ["2.2.0", "junk"], ["1.5.0", "2.0.0"])]
+    eres = core.pmap(entry_case, ejobs, ctx.workers)
     jobs = [("select", v) for v in version_grid(ctx.quick)]
     for v in R.VERSIONS:
         for t in range(-1, 41):
@@ -183,6 +236,7 @@ def run(ctx: core.Ctx) -> core.Report:
             jobs.append(("gate", (v, 4, t)))
     gres = core.pmap(grid_case, jobs, ctx.workers)
     viols = [core.Violation(k, w, {"grid": rep}) for r in gres for k, w, rep in r]
+    viols += [core.Violation(k, w, rep) for r in eres for k, w, rep in r]
     depth = 4 if ctx.quick else 5
     cfgs = [{"version": None}, {"version": "2.1"}] if ctx.quick else [{"version": None}, {"version": "1.5"}, {"version": "2.0"}, {"version": "2.2"}]
     res = bfs.search(ctx, MOD, cfgs, max_depth=depth)
@@ -192,8 +246,9 @@ def run(ctx: core.Ctx) -> core.Report:
         "traces_validated_against_impl": res["transitions"] + len(jobs),
         "exhaustive": False,
         "grid_cases": len(jobs),
+        "context_entry_cases": len(ejobs),
         "distinct_nontrivial_transitions": res["nontrivial_transitions"],
-        "rule": "(a) every version string of the grid through the setter, a version reply and a gateway presentation; (c) every internal type -1..40 and stream type -1..8 per version; (b) all histories of version reports mixed with traffic and type probes to the stated depth",
+        "rule": "(a) every version string of the grid through the setter, a version reply and a gateway presentation; (c) every internal type -1..40 and stream type -1..8 per version; (b) all histories of version reports mixed with traffic and type probes to the stated depth; (d) gateways entering their context over persistence files with 8 stored gateway-node versions x 5 report sequences",
         "bounds": {"depth": depth, "version_strings": len(version_grid(ctx.quick)), "per_cfg": res["per_cfg"]},
         "samples": ctx.pick(res["samples"], 2) + [{"grid": jobs[7]}, {"grid": jobs[-3]}],
     }
@@ -210,6 +265,9 @@ def run(ctx: core.Ctx) -> core.Report:
 
 
 def replay(data: dict) -> dict:
+    if "entry" in data:
+        v = entry_case((data["entry"][0], data["entry"][1]))
+        return {"violated": bool(v), "violations": [{"key": k, "what": w} for k, w, _ in v]}
     if "grid" in data:
         g = data["grid"]
         arg = g["arg"]
